@@ -135,6 +135,21 @@ impl EdgeRtreeInputPlugin {
             return Err(CompassConfigurationError::UserConfigurationError(msg));
         }
 
+        // the r-tree orders edges by the distance to their centroid: a coordinate or a centroid that is
+        // not finite (coordinates beyond the f32 range, or so far apart that the centroid overflows)
+        // yields a NaN distance, on which the nearest-neighbour search panics for every query
+        if let Some(row) = geometries.iter().position(|g| {
+            let finite = |x: f32, y: f32| x.is_finite() && y.is_finite();
+            g.0.iter().any(|c| !finite(c.x, c.y))
+                || g.centroid().is_some_and(|c| !finite(c.x(), c.y()))
+        }) {
+            let msg = format!(
+                "edge_rtree: geometries file has a linestring with a non-finite coordinate or centroid at row {}",
+                row
+            );
+            return Err(CompassConfigurationError::UserConfigurationError(msg));
+        }
+
         let rcl_len_opt = road_class_lookup.as_ref().map(|l| l.len());
         let geo_len = geometries.len();
         if let Some(rcl_len) = rcl_len_opt {
